@@ -124,6 +124,13 @@ class LineSched(SqlSched):
         code = getattr(f, "__code__", None)
         if code is not None:
             out.append(code)
+            # nested functions / lambdas / comprehensions defined inside (closures handed to other code) are lines of it too
+            stack = [code]
+            while stack:
+                for c in stack.pop().co_consts:
+                    if isinstance(c, types.CodeType):
+                        out.append(c)
+                        stack.append(c)
         return out
 
     def install(self) -> "LineSched":
